@@ -53,6 +53,34 @@ type meRow struct {
 	FNull  bool  `json:"f_null,omitempty"`
 	Extra  int64 `json:"extra"` // non-indexed int tag
 	ExNull bool  `json:"extra_null,omitempty"`
+	// Ver is the version of the data point (0 = 1). A (series, timestamp) may be written again with another version: the
+	// highest version is the stored point.
+	Ver int64 `json:"ver,omitempty"`
+}
+
+func (r meRow) version() int64 {
+	if r.Ver <= 0 {
+		return 1
+	}
+	return r.Ver
+}
+
+// meLatest keeps, per (series, timestamp), the row with the highest version.
+func meLatest(rows []meRow) []meRow {
+	best := map[[2]int64]int{}
+	var out []meRow
+	for _, r := range rows {
+		k := [2]int64{int64(r.Svc), r.T}
+		if i, ok := best[k]; ok {
+			if r.version() > out[i].version() {
+				out[i] = r
+			}
+			continue
+		}
+		best[k] = len(out)
+		out = append(out, r)
+	}
+	return out
 }
 
 // region and zone are indexed tags: they are stored per series, so they are functions of the series.
@@ -116,7 +144,7 @@ func (e *meEnv) write(batch []meRow) {
 			DataPoint: &measurev1.DataPointValue{
 				Timestamp:   timestamppb.New(time.Unix(0, tsOf(r.T))),
 				TagFamilies: []*modelv1.TagFamilyForWrite{{Tags: []*modelv1.TagValue{meStrTV(meSvc(r.Svc)), meStrTV(meRegion(r.Svc)), meIntTV(meZone(r.Svc)), extra}}},
-				Fields:      fields, Version: 1,
+				Fields:      fields, Version: r.version(),
 			},
 			MessageId: msgID,
 		}
@@ -484,7 +512,7 @@ func runMeasureEngine(x *verifkit.Ctx, c meCase) (meStats, error) {
 		switch op.Kind {
 		case "write":
 			e.write(op.Rows)
-			all = append(all, op.Rows...)
+			all = meLatest(append(all, op.Rows...))
 		case "flush":
 			if e.VerifFlushAll() > 0 {
 				st.flushes++
@@ -763,7 +791,7 @@ func meTexts(o []meOut) (s []string) {
 }
 
 func meAggOverNull(c meCase) bool {
-	rows := c.rows()
+	rows := meLatest(c.rows())
 	for _, op := range c.Ops {
 		if op.Kind != "query" {
 			continue
@@ -903,6 +931,33 @@ func genMeCase(t *rapid.T, ks *verifkit.KnownSet) meCase {
 		if rapid.IntRange(0, 2).Draw(t, "q") == 0 {
 			c.Ops = append(c.Ops, meOp{Kind: "query", Query: genMeQuery(t)})
 		}
+	}
+	if rapid.IntRange(0, 11).Draw(t, "longseries") == 0 {
+		// one series with more rows than a merged batch holds (4096), and re-written points around that boundary in a second part
+		n := rapid.IntRange(4100, 4300).Draw(t, "longn")
+		base := int64(10000)
+		v1 := int64(rapid.SampledFrom([]int{2, 3}).Draw(t, "longver"))
+		var rows []meRow
+		for i := 0; i < n; i++ {
+			rows = append(rows, meRow{Svc: 6, T: base + int64(i), V: int64(i), FQ: 4, Extra: 1, Ver: v1})
+		}
+		c.Ops = append(c.Ops, meOp{Kind: "write", Rows: rows}, meOp{Kind: "flush"})
+		var dups []meRow
+		for k := rapid.IntRange(1, 3).Draw(t, "ndups"); k > 0; k-- {
+			at := int64(rapid.IntRange(4092, 4099).Draw(t, "dupat"))
+			dup := false
+			for _, d := range dups {
+				if d.T == base+at {
+					dup = true
+				}
+			}
+			if !dup {
+				dups = append(dups, meRow{Svc: 6, T: base + at, V: -7, FQ: 8, Extra: 2, Ver: rapid.SampledFrom([]int64{v1 - 1, v1 + 1, v1 + 1}).Draw(t, "dupver")})
+			}
+		}
+		c.Ops = append(c.Ops, meOp{Kind: "write", Rows: dups}, meOp{Kind: "flush"},
+			meOp{Kind: "query", Query: &meQuery{Tags: []string{"svc", "extra"}, Fields: []string{"value"}, Limit: 10000, Svcs: []int{6}, From: -1, To: 100000,
+				Batch: rapid.SampledFrom([]int{1024, 4096, 7}).Draw(t, "longbatch"), Order: rapid.SampledFrom([]string{"", "asc", "desc"}).Draw(t, "longorder")}})
 	}
 	nq := rapid.IntRange(1, 4).Draw(t, "queries")
 	for i := 0; i < nq; i++ {
